@@ -58,6 +58,7 @@ class Report:
         self.units = {}             # unit -> {'vcs': n, 'paths': n, 'wall': s}
         self.errors = []            # (unit, kind, message)   -> undecided / fault
         self.bounded = []           # bounded stand-ins: dicts, never counted as proved
+        self.unit_bounded = {}      # unit -> {'tried', 'bound', 'violations'} for units whose bounded stand-in ran
         self.assumptions = list(ASSUMPTIONS_COMMON)
         self.trusted = list(TRUSTED_BASE)
         self.notes = []
@@ -83,6 +84,8 @@ class Report:
             self.vacuity['mustfail_guards_refuted'] += sum((r.get('stats') or {}).get('mustfail', {}).values())
             if r.get('error'):
                 self.errors.append((unit, r['error'][0], r['error'][1]))
+            if r.get('bounded'):
+                self.unit_bounded[unit] = r['bounded']
             for v in r['verdicts']:
                 if clause_filter and not clause_filter(v['obligation']):
                     continue
@@ -149,6 +152,17 @@ class Report:
             code = max(code, 3) if code != 1 else 1
         vac = [e for e in self.errors if e[1] in ('vacuous', 'crash')]
         und = [e for e in self.errors if e[1] not in ('vacuous', 'crash')]      # out-of-subset, role, timeout
+        # a unit that left the verifier's reach (out of subset / role binding) but whose BOUNDED native stand-in ran and found nothing:
+        # "a bounded check of that function with a stated bound may stand in, labelled bounded and never counted as proved" - not an alarm
+        def _stood_in(e):
+            b = self.unit_bounded.get(e[0])
+            return e[1] in ('out-of-subset', 'role') and b is not None and b.get('tried', 0) > 0 and b.get('violations', 0) == 0
+        soft = [e for e in und if _stood_in(e)]
+        und = [e for e in und if not _stood_in(e)]
+        for e in soft:
+            b = self.unit_bounded[e[0]]
+            lines.append(f"BOUNDED-ONLY property={self.prop} unit={e[0]} not within the verifier's reach ({e[1]}: {str(e[2])[:160]}); bounded stand-in held on {b['tried']} inputs ({str(b['bound'])[:160]}) - not counted as proved")
+            self.bounded.append({'unit': e[0], 'bound': str(b['bound']), 'tried': b['tried'], 'violations': 0, 'reason': f'{e[1]}: {str(e[2])[:200]}', 'stands_in_for_proof': True})
         if code == 0:
             if vac:
                 code = 3
@@ -200,6 +214,7 @@ class Report:
                 'vacuity': dict(self.vacuity, rule='every unit needs >= 1 feasible path (path condition SAT) and zero obligations is a fault; per fragment unit two deliberately wrong clauses (negated status, end off by one) must NOT be provable'),
                 'failed': [o.ident for o in viol][:200],
                 'undecided': [o.ident for o in unknown][:50] + [f'{e[0]}: {e[1]}: {str(e[2])[:200]}' for e in und][:50],
+                'bounded_only_units': [f'{e[0]}: {e[1]}: {str(e[2])[:200]}' for e in soft],
                 'samples': samples,
                 'explanation': ' '.join(self.notes) or 'see DESIGN.md',
                 'repo': paths.REPO,
@@ -217,7 +232,7 @@ class Report:
         for ln in lines:
             print(ln, file=out)
         print(f'{self.prop} [{self.tier}] obligations={len(self.obls)} discharged={len(proved)} known-finding={n_known} '
-              f'violations={len(viol)} undecided={len(unknown) + len(und)} units={len(self.units)} wall={wall:.1f}s exit={code}', file=out)
+              f'violations={len(viol)} undecided={len(unknown) + len(und)} bounded-only={len(soft)} units={len(self.units)} wall={wall:.1f}s exit={code}', file=out)
         return code
 
 
